@@ -46,6 +46,8 @@ const (
 	PCancel
 	PQuiesce
 	PYield
+	PTimer // NewTimer / AfterFunc / Stop / Reset
+	PNow   // read of the logical clock
 )
 
 type SelCase struct {
@@ -61,6 +63,7 @@ type PendOp struct {
 	cases      []SelCase
 	hasDefault bool
 	ctx        *CtxObj
+	timer      *TimerObj
 	// completion callbacks
 	done     func()                           // send / close / cancel / quiesce / yield
 	recv     func(v Value, ok bool)           // recv
@@ -90,6 +93,7 @@ type State struct {
 	errs    map[string]*ErrObj
 	nsyms   map[string]int
 	fires   int
+	now     *Term
 	bgCtx   *CtxObj
 	ghost   map[string]Value
 }
@@ -640,6 +644,26 @@ func (in *Interp) callValue(g *G, fv *FuncV, args []Value, retTo ssa.Value, adv 
 	case harnessPkg + ".Yield":
 		g.status = GPending
 		g.pend = &PendOp{kind: PYield, pos: in.curPos, done: adv}
+		return true
+	case "time.NewTimer", "time.AfterFunc", "(*time.Timer).Stop", "(*time.Timer).Reset", harnessPkg + ".Now":
+		// timer operations and clock reads are visible: their order relative to timer fires matters
+		kind := PTimer
+		if name == harnessPkg+".Now" {
+			kind = PNow
+		}
+		var tm *TimerObj
+		if strings.HasPrefix(name, "(*time.Timer)") {
+			tm = timerOf(args[0])
+		}
+		h := intrinsics[name]
+		g.status = GPending
+		g.pend = &PendOp{kind: kind, timer: tm, pos: in.curPos, done: func() {
+			res := h(in, g, fv, args)
+			if retTo != nil {
+				g.top().regs[retTo] = res
+			}
+			adv()
+		}}
 		return true
 	}
 	depth := len(g.frames)
